@@ -19,7 +19,7 @@ func init() {
 			"the in-flight slot (the bounded responses queue, capacity MaxOpenRequests-1) should be taken before the request is written (C14.slot — violated on the pinned tree, known finding F7); all connection reads/writes go through readFull/write, which set the deadline first (C14.deadline); sendAndReceive returns only after receiving from the promise (C14.await). " +
 			"Shared with C10: the response header length is checked before anything else is believed, so that the body buffer size computed from it cannot be negative (C10.cap). " +
 			"NOT covered: server behaviours, Close racing with in-flight calls, fairness between callers.",
-		Rules: []func(*Ctx){c14Lock, c14OneOutcome, c14Slot, c14Deadline, c14Await, c14OpenOnce, c10Cap},
+		Rules: []func(*Ctx){c14Lock, c14OneOutcome, c14Slot, c14Deadline, c14Await, c14OpenOnce, c14ConnErr, c10Cap},
 	})
 }
 
@@ -332,4 +332,70 @@ func c14OpenOnce(c *Ctx) {
 		ok, path := reg.Guarded(g, Truth{isCAS, true})
 		c.Check(ok, rule, fn, "dial-only-after-cas", g.In, "the dial goroutine is started only where CompareAndSwap(&b.opened, 0, 1) succeeded", "Broker.Open can start its dial goroutine without having won CompareAndSwap(&b.opened, 0, 1): concurrent Open calls both dial", path)
 	}
+}
+
+// C14.conn-err: a connection whose set-up failed is never put into service.
+func c14ConnErr(c *Ctx) {
+	p := c.P
+	rule := "C14.conn-err"
+	c.Doc(rule, "the dial goroutine of Broker.Open: after each assignment of a call's result to b.connErr (dial, SASL authentication), the connection is put into service — b.responses created, responseReceiver started — only across a test that this very error (the value stored, or b.connErr read back) is nil; on the other branch b.conn is reset to nil.  A test of some other error variable lets a connection whose authentication exchange failed (timed out, mis-framed, wrong correlation id) carry later requests")
+	c.Floor(rule, 2)
+	open := c.NeedFn(rule, "Broker.Open")
+	if open == nil {
+		return
+	}
+	n := 0
+	for _, fn := range p.Fns {
+		if fn.Parent() == nil || rootFn(fn) != open && fn.Parent() != open {
+			continue
+		}
+		fi := Info(fn)
+		reg := WholeFn(fn)
+		service := Or(StoreTo(nil, "Broker.responses"), func(it Item) bool {
+			g, ok := it.In.(*ssa.Go)
+			if !ok {
+				return false
+			}
+			for _, a := range g.Call.Args {
+				if f := p.FuncOfValue(a); f != nil && p.Name(f) == "Broker.responseReceiver" {
+					return true
+				}
+			}
+			f := p.GoTarget(it)
+			return f != nil && p.Name(f) == "Broker.responseReceiver"
+		})
+		for _, s := range fi.Find(StoreTo(nil, "Broker.connErr")) {
+			st, ok := s.In.(*ssa.Store)
+			if !ok || st.Parent() != fn {
+				continue
+			}
+			v := st.Val
+			if _, isCall := v.(*ssa.Call); !isCall {
+				if ex, isEx := v.(*ssa.Extract); !isEx {
+					continue
+				} else if _, isCall := ex.Tuple.(*ssa.Call); !isCall {
+					continue
+				}
+			}
+			n++
+			isNil := Cmp{token.EQL, OrV(Same(v), FieldLoad("Broker.connErr")), IsNil()}
+			r := *reg.From(s.After())
+			r.Cut = func(from, to *ssa.BasicBlock) bool { return Establishes(from, to, isNil) }
+			it, path := r.Reach(service, nil)
+			c.Check(it.IsZero(), rule, fn, "service-only-if-nil:"+describeCall(p, v), st, "the connection is put into service only where this error was found nil", "after b.connErr = "+describeCall(p, v)+" the connection can be put into service (response queue created, receiver started) without this error having been tested: a failure of the set-up step (for SASL: a timed-out or corrupted authentication exchange) leaves b.conn in place and later calls are sent over the failed connection instead of returning an error", path)
+		}
+	}
+	if n < 2 {
+		c.Unresolved(rule, fmt.Sprintf("assignments of a call result to b.connErr in Broker.Open (found %d)", n))
+	}
+}
+
+func describeCall(p *Program, v ssa.Value) string {
+	if ex, ok := v.(*ssa.Extract); ok {
+		v = ex.Tuple
+	}
+	if cl, ok := v.(*ssa.Call); ok {
+		return p.CalleeName(&cl.Call) + "()"
+	}
+	return describe(v)
 }
